@@ -6,7 +6,7 @@ from . import seams
 
 UTC = _dt.timezone.utc
 
-ALGS = ('ed25519', 'p256', 'p384', 'p521', 'secp256k1', 'rsa1024', 'rsa2048', 'rsa3072', 'dsa1024', 'dsa2048')
+ALGS = ('ed25519', 'p256', 'p384', 'p521', 'secp256k1', 'rsa1024', 'rsa2048', 'rsa2050', 'rsa3072', 'dsa1024', 'dsa2048')
 ENC_ALGS = ('cv25519', 'ecdh_p256', 'ecdh_p384', 'ecdh_p521', 'ecdh_secp256k1', 'rsa1024', 'rsa2048', 'rsa3072')
 FAST_SIGN_ALGS = ('ed25519', 'p256', 'p384', 'p521', 'secp256k1')
 FAST_ENC_ALGS = ('cv25519', 'ecdh_p256', 'ecdh_p384', 'ecdh_p521', 'ecdh_secp256k1')
@@ -27,6 +27,7 @@ def alg_params(alg):
         'ecdh_secp256k1': (PK.ECDH, OID.SECP256K1),
         'rsa1024': (PK.RSAEncryptOrSign, 1024),
         'rsa2048': (PK.RSAEncryptOrSign, 2048),
+        'rsa2050': (PK.RSAEncryptOrSign, 2050),          # a modulus that is not a whole number of octets
         'rsa3072': (PK.RSAEncryptOrSign, 3072),
         'rsa4096': (PK.RSAEncryptOrSign, 4096),
         'dsa1024': (PK.DSA, 1024),
